@@ -793,7 +793,8 @@ def grad_concatenate_args(argnum, ans, axis_args, kwargs):
     start = sum(sizes[:-1])
     idxs = [slice(None)] * ans.ndim
     idxs[axis] = slice(start, start + sizes[-1])
-    return lambda g: g[tuple(idxs)]
+    # a real piece next to complex pieces gets the real part of its slice of the cotangent
+    return lambda g: match_complex(args[argnum - 1], g[tuple(idxs)])
 
 
 defvjp_argnum(anp.concatenate_args, grad_concatenate_args)
@@ -961,7 +962,7 @@ def replace_zero(x, val):
 def array_from_args_gradmaker(argnum, ans, args, kwargs):
     # with ndmin larger than the natural rank, np.array prepends axes of length one
     natural_shape = anp.shape(ans)[anp.ndim(ans) - 1 - anp.ndim(args[2]) :]
-    return lambda g: anp.reshape(g, natural_shape)[argnum - 2]
+    return lambda g: match_complex(args[argnum], anp.reshape(g, natural_shape)[argnum - 2])
 
 
 defvjp_argnum(anp.array_from_args, array_from_args_gradmaker)
